@@ -29,7 +29,7 @@ RULE = ("formula: random n-ary and/or tree (norm: <=12 leaves, depth<=5, <=6 dis
         "events/flows) rendered to Colang source and parsed by the repo's parser (or built from Spec objects for norm); "
         "e2e sequences over the atoms' events plus one irrelevant event, length<=6: permutations, random with repeats, "
         "prefix-of-satisfying; thorough additionally enumerates ALL and/or trees with <=3 leaves over <=3 atoms x ALL "
-        "sequences of length<=4 over atoms+irrelevant (match), and all 720 orders of 5 atoms+irrelevant for sampled formulas. "
+        "sequences of length<=4 over atoms+irrelevant (match), and all arrival orders (up to 720) of the atoms+irrelevant for 96 sampled formulas, all trees <=2 leaves x all sequences <=4 with failure events (awaitf/whenf), all trees <=3 leaves x all sequences <=3 (await/when). "
         "non-trivial = formula mixes and/or or has >=3 leaves, and (e2e) some sequence completes the group after its first event; "
         "distinct = distinct case JSON.")
 TRUSTED_BASE = [
@@ -47,7 +47,8 @@ EXHAUSTIVE = {"quick": False, "thorough": True}
 
 IRR = 9  # index of the irrelevant event "X"
 FAIL = 100  # event FAIL+i makes flow f<i> fail (ops awaitf / whenf only)
-OPS = ["match", "await", "when", "whenmix", "awaitf", "whenf"]
+# when2: the top-level `or` of the formula is spelled as two cases `when g1 / send Hit()` `or when g2 / send Hit2()`
+OPS = ["match", "await", "when", "whenmix", "awaitf", "whenf", "when2"]
 
 
 def translate():
@@ -173,7 +174,7 @@ def renderable(g, top=True):
 def kinds_for(op, rng=None, g=None):
     if op == "match":
         return ["ev"] * 10
-    if op in ("await", "when", "awaitf", "whenf"):
+    if op in ("await", "when", "awaitf", "whenf", "when2"):
         return ["flow"] * 10
     ks = [rng.choice(["ev", "flow"]) for _ in range(10)]
     return ks
@@ -190,6 +191,9 @@ def program(op, g, kinds, minimal=False):
         body = f"  match {grp}\n  send Hit()\n"
     elif op in ("await", "awaitf"):
         body = f"  await {grp}\n  send Hit()\n"
+    elif op == "when2":
+        g1, g2 = g["or"]
+        body = f"  when {render(g1, kinds, minimal)}\n    send Hit()\n  or when {render(g2, kinds, minimal)}\n    send Hit2()\n"
     else:
         body = f"  when {grp}\n    send Hit()\n"
     return subs + "flow main\n" + body + "  match Never()\n"
@@ -239,7 +243,7 @@ def all_seqs(alphabet, maxlen):
 
 def gen_cases(rng, tier):
     quick = tier == "quick"
-    n_norm, n_normd, n_expand, n_e2e, n_seq = (3500, 1500, 1200, 320, 14) if quick else (120000, 60000, 30000, 5000, 40)
+    n_norm, n_normd, n_expand, n_e2e, n_seq = (3500, 1500, 1200, 320, 14) if quick else (100000, 50000, 25000, 3000, 30)
     cases = []
     for _ in range(n_norm):
         g = g_formula(rng, rng.randint(1, 6), rng.randint(1, 12), rng.randint(1, 5))
@@ -254,6 +258,8 @@ def gen_cases(rng, tier):
         op = OPS[i % len(OPS)]
         n_atoms = rng.randint(1, 5)
         g = g_formula(rng, n_atoms, rng.randint(2, 8), rng.randint(1, 4))
+        if op == "when2":
+            g = {"or": [g_formula(rng, n_atoms, rng.randint(1, 4), rng.randint(0, 3)), g_formula(rng, n_atoms, rng.randint(1, 4), rng.randint(0, 3))]}
         kinds = kinds_for(op, rng, g)
         cases.append({"kind": "e2e", "op": op, "g": g, "kinds": kinds[:5], "minimal": rng.random() < 0.3, "seqs": g_seqs(rng, g, n_seq, fails=op.endswith("f"))})
     if not quick:
@@ -263,9 +269,11 @@ def gen_cases(rng, tier):
                 al = sorted(set(atoms_of(g))) + [IRR]
                 cases.append({"kind": "e2e", "op": "match", "g": g, "kinds": ["ev"] * 5, "minimal": False, "seqs": list(all_seqs(al, 4))})
         # all arrival orders of the full alphabet for sampled formulas, all four statement kinds
-        for i in range(160):
+        for i in range(96):
             op = OPS[i % len(OPS)]
             g = g_formula(rng, 5, rng.randint(4, 8), rng.randint(2, 4))
+            if op == "when2":
+                g = {"or": [g_formula(rng, 5, rng.randint(2, 4), 2), g_formula(rng, 5, rng.randint(2, 4), 2)]}
             al = sorted(set(atoms_of(g))) + [IRR]
             cases.append({"kind": "e2e", "op": op, "g": g, "kinds": kinds_for(op, rng, g)[:5], "minimal": False, "seqs": [list(p) for p in itertools.permutations(al)]})
         # failing sub-flows: all trees with <= 2 leaves, all sequences of length <= 4 over finish/fail events + irrelevant
@@ -279,6 +287,17 @@ def gen_cases(rng, tier):
                 for g in all_trees(leaves, min(leaves, 3)):
                     al = sorted(set(atoms_of(g))) + [IRR]
                     cases.append({"kind": "e2e", "op": op, "g": g, "kinds": ["flow"] * 5, "minimal": False, "seqs": list(all_seqs(al, 3))})
+    # spread the expensive end-to-end cases evenly over the list (balanced work for the worker pool)
+    heavy = [c for c in cases if c["kind"] == "e2e"]
+    light = [c for c in cases if c["kind"] != "e2e"]
+    if heavy:
+        step = max(1, len(light) // len(heavy))
+        out = []
+        for i, h in enumerate(heavy):
+            out.extend(light[i * step:(i + 1) * step])
+            out.append(h)
+        out.extend(light[len(heavy) * step:])
+        cases = out
     return cases
 
 
@@ -287,7 +306,7 @@ def escalate(rng, focus, tier):
     if focus is not None and focus.get("kind") == "e2e":
         g = focus["g"]
         al = sorted(set(atoms_of(g))) + [IRR]
-        for op in OPS:
+        for op in [o for o in OPS if o != "when2"]:
             cases.append(dict(focus, op=op, kinds=kinds_for(op, rng, g)[:5], seqs=list(all_seqs(al, 4))[:3000]))
     return cases
 
@@ -346,16 +365,9 @@ def parse_group(op, g, kinds, minimal):
             grp = el.spec
             break
         if isinstance(el, A.When):
-            grp = el.when_specs[0]
+            grp = el.when_specs[0] if op != "when2" else {"_type": "spec_or", "elements": list(el.when_specs)}
             break
     return src, r["flows"], grp
-
-
-PRIM_FIELDS = {
-    "Label": ("label", ["name"]), "Goto": ("goto", ["label"]), "ForkHead": ("fork", ["fork_uid", "labels"]),
-    "MergeHeads": ("merge", ["fork_uid"]), "WaitForHeads": ("wait", ["number"]), "CatchPatternFailure": ("catch", ["label"]),
-    "Abort": ("abort", []),
-}
 
 
 def prims_to_json(elements):
@@ -488,16 +500,18 @@ def run_e2e(case):
     runs = []
     for seq in case["seqs"]:
         s = copy.deepcopy(st)
-        hits, extra, exc = [], set(), None
+        hits, extra, exc, which = [], set(), None, []
         try:
             with _quiet():
                 for a in seq:
                     sm.run_to_completion(s, {"type": ev_name(a)})
-                    hits.append(sum(1 for e in s.outgoing_events if e.get("type") == "Hit"))
-                    extra.update(e.get("type") for e in s.outgoing_events if e.get("type") != "Hit")
+                    got = [e.get("type") for e in s.outgoing_events if e.get("type") in ("Hit", "Hit2")]
+                    hits.append(len(got))
+                    which.extend(got)
+                    extra.update(e.get("type") for e in s.outgoing_events if e.get("type") not in ("Hit", "Hit2"))
         except Exception as e:  # noqa
             exc = f"{type(e).__name__}: {e}"[:200]
-        runs.append({"hits": hits, "extra": sorted(extra), "exc": exc, "main": _main_status(s)})
+        runs.append({"hits": hits, "which": which, "extra": sorted(extra), "exc": exc, "main": _main_status(s)})
     obs["runs"] = runs
     return obs
 
@@ -649,6 +663,14 @@ def oracle(case, obs):
             k = next(i for i, (a, b) in enumerate(zip(got, exp)) if a != b)
             what = "before the formula is satisfied" if got[k] > exp[k] and 1 not in exp[:k + 1] else ("again after completion" if got[k] > exp[k] else "not at the first satisfying prefix")
             return f"{case['op']} group {render(g, case['kinds'] + ['ev'] * 10)}: sequence {seq}: marker {what} (hits {got}, formula says {exp}, main flow {run['main']})"
+        if 1 in exp:
+            k = exp.index(1)
+            if case["op"] == "when2":
+                own = g["or"][0] if run.get("which") == ["Hit"] else g["or"][1]
+                if expected_hits(own, seq[:k + 1])[-1:] != [1] and 1 not in expected_hits(own, seq[:k + 1]):
+                    return f"when2 {render(g, case['kinds'] + ['ev'] * 10)}: sequence {seq}: case {run.get('which')} fired at index {k} but its own group is not satisfied"
+            elif run.get("which", ["Hit"]) != ["Hit"]:
+                return f"sequence {seq}: unexpected marker {run.get('which')}"
     return None
 
 
@@ -671,7 +693,7 @@ def occurrence_clauses(g):
 
 
 def signature(case, obs, msg):
-    if case["kind"] == "e2e" and case["op"] in ("when", "whenmix", "whenf"):
+    if case["kind"] == "e2e" and case["op"] in ("when", "whenmix", "whenf", "when2"):
         kinds = case["kinds"] + ["ev"] * 10
         cl = occurrence_clauses(case["g"])
         count = {}
